@@ -53,7 +53,8 @@ PEAKS = [1.0, 0.35, 2.5]
 
 IN_POS = ["interiorA", "interiorB", "near_row_lo", "near_row_hi", "near_col_lo", "near_col_hi",
           "edge_row_lo", "edge_row_hi", "edge_col_lo", "edge_col_hi"]
-OFF_POS = ["off_row_lo", "off_row_hi", "off_col_lo", "off_col_hi"]
+OFF_POS = ["off_row_lo", "off_row_hi", "off_col_lo", "off_col_hi",
+           "just_off_row_lo", "just_off_row_hi", "just_off_col_lo", "just_off_col_hi"]      # centre less than half a pixel beyond the image
 FAR_POS = ["far_30deg", "far_antipode", "far_pole"]
 ALL_POS = IN_POS + OFF_POS + FAR_POS
 FORMATS = ["csv", "vot", "tab"]
@@ -165,6 +166,8 @@ def position(name, hdr, shape, seed):
                  near_col_lo=(midr - 7, 2.0 + 0.2 * s2), near_col_hi=(midr + 6, cols - 3.0 - 0.2 * s2),
                  edge_row_lo=(-edge_in, midc - 9), edge_row_hi=(rows - 1 + edge_in, midc + 8),
                  edge_col_lo=(midr + 9, -edge_in), edge_col_hi=(midr - 10, cols - 1 + edge_in),
+                 just_off_row_lo=(-0.65 - 0.25 * s1, midc - 14), just_off_row_hi=(rows - 1 + 0.65 + 0.25 * s2, midc + 13),
+                 just_off_col_lo=(midr + 13, -0.65 - 0.25 * s2), just_off_col_hi=(midr - 14, cols - 1 + 0.65 + 0.25 * s1),
                  off_row_lo=(-off, midc + 2), off_row_hi=(rows - 1 + off, midc - 3),
                  off_col_lo=(midr - 2, -off), off_col_hi=(midr + 3, cols - 1 + off))
     if name in table:
